@@ -1924,7 +1924,8 @@ def _getitem_batch_size(batch_size, index):
             shape = len(idx)
         elif isinstance(idx, torch.Tensor):
             if idx.dtype == torch.bool:
-                shape = torch.Size([idx.sum()])
+                # int(): under torch.compile the sum is a (fake) tensor, which torch.Size refuses
+                shape = torch.Size([int(idx.sum())])
                 boolean = True
             elif idx.ndim:
                 shape = idx.shape
